@@ -54,8 +54,8 @@
       result — both occur), `sig_capacity` (both, for two runs from Init with any capacities over any chunk schedule).
 
   Scope notes (found by a sceptical review): "replies yield no signature" is `reply_no_signature` under
-  `m.request = false`; the code decides request / reply by `Status == 0`, so the ill-formed status line `SIP/2.0 000 x`
-  (accepted, C08) counts as a request and DOES get a signature — recorded as an observation about ill-formed input. The
+  `m.request = false`; C08 `reply_iff` shows that this holds for EVERY accepted status line, code `000` included (before
+  the repair F22 / 07883de the code decided by `Status == 0` and the status line `SIP/2.0 000 x` got a signature). The
   `edit_*` corollaries compare `getMsgSig (withHdrs m …)` with `getMsgSig m` on one frozen buffer / values object: they are
   statements about the stored header LIST; the statement about two parsed messages is `same_view_same_signature
   (_unconditional)` (its hypotheses are equalities of `get?` Options — both `none` is allowed and means both fields
